@@ -12,7 +12,7 @@ CONSTANTS
   Scores <- ScoresSim
   Limits <- LimitsBig
   PageSizes = {1, 2}
-  MaxNow = 8
+  MaxNow = 6
   MaxPubs = 8
   MaxOps = 16
   Deterministic = FALSE
